@@ -46,6 +46,7 @@ def run(chk):
                        "the list protocol of RangeListManager (TypeScript) is executed, not modelled"]
     chk.model_tie([("GE.Thm.C06", THEOREMS), ("GE.Thm.C06Guard", THM_GUARD)])
     rng = chk.rng.fork("c06")
+    rlm_stream(chk, chk.rng.fork("rlm"), quick)
     # guard strings: model vs implementation on a sample of expressions (full stream lives in C03)
     from . import exprgen as eg
     trees = eg.enum_depth2()[:: (9 if quick else 2)] + [eg.rand_tree(rng, 3, 1) for _ in range(150 if quick else 3000)]
@@ -63,7 +64,7 @@ def run(chk):
     n = 400 if quick else 8000
     srcs, plans = [], []
     for i in range(n):
-        g = tg.TmplGen(rng.fork(("t", i)), max_depth=3)
+        g = tg.TmplGen(rng.fork(("t", i)), max_depth=3, dyn=True)
         t = g.template()
         src = tg.Printer().template(t)
         r = rng.fork(("h", i))
@@ -80,6 +81,9 @@ def run(chk):
                 u = True
             steps.append({"update": D1, "U": up.tree_to_req(u)})
             hist.append(D1)
+            if "cmp-dyn" in src and r.chance(1, 2):
+                # the dynamic-slot components hand other values to their slots
+                steps.append({"slotEpoch": r.below(32)})
         srcs.append(src)
         plans.append((hist, steps))
     # directed list / operand scenarios: every list shape x key x body x transition (exact, coarsened and `true` trees)
@@ -96,7 +100,33 @@ def run(chk):
             write_path(D1, pth, v)
         srcs.append(src)
         plans.append(([D0, D1], [{"create": D0}, {"changes": [[list(pth), v] for (pth, v) in changes], "D": D1}]))
+    # dynamic-slot components: content rendered once per slot instance, selected by slot name, fed with slot values that change by "epoch"
+    for src, D0, D1s in dyn_scenarios():
+        for D1 in D1s:
+            u = up.diff_tree(D0, D1)
+            for e1, e2 in ((None, None), (5, None), (None, 3), (1, 30)):
+                steps = [{"create": D0}] + ([{"slotEpoch": e1}] if e1 is not None else []) + [{"update": D1, "U": up.tree_to_req(u)}] + \
+                        ([{"slotEpoch": e2}] if e2 is not None else [])
+                srcs.append(src)
+                plans.append(([D0, D1], steps))
+    chk.bump("oracle:dyn-histories", sum(1 for s_ in srcs if "cmp-dyn" in s_))
+    chk.bump("oracle:slot-epoch-steps", sum(1 for (_, st) in plans for x in st if "slotEpoch" in x))
     run_histories(chk, srcs, plans)
+
+
+def dyn_scenarios():
+    """[(template, D0, [D1])] for `cmp-dyn` (three slot instances: '', 's1', '')"""
+    D0 = {"q": 1, "s": "", "l": [{"k": "x", "p": 1}, {"k": "y", "p": 2}], "c": True}
+    D1s = [dict(D0, q=2), dict(D0, s="s1"), dict(D0, s="zz"), dict(D0, c=False), dict(D0, l=[{"k": "y", "p": 2}, {"k": "x", "p": 3}, {"k": "z", "p": 4}]),
+           dict(D0, q=0, s="s1", c=False, l=[])]
+    tpls = ['<cmp-dyn title="{{q}}"><view slot:a class="{{q}}">{{a}}-{{q}}</view><text slot="s1" slot:b>{{b}}{{q}}</text>t{{q}}</cmp-dyn>',
+            '<cmp-dyn><block wx:if="{{c}}"><v title="{{q}}">{{q}}</v>i{{q}}</block><view wx:for="{{l}}" wx:key="k" slot="s1">{{item.p}}{{q}}</view></cmp-dyn>',
+            '<cmp-dyn><view slot="{{s}}" slot:a slot:b="bb" title="{{a}}{{bb}}">x{{q}}{{a}}</view><block slot="s1">B{{q}}</block></cmp-dyn>',
+            '<cmp-dyn><block slot:item slot:sv="v">{{item}}/{{v}}/{{q}}</block><cmp-x slot="s1" foo-bar="{{q}}" slot:a value="{{a}}"/></cmp-dyn>',
+            '<cmp-dyn wx:if="{{c}}" value="{{q}}"><view slot:a>{{a}}</view></cmp-dyn><cmp-dyn wx:else><text slot="{{s}}" slot:b>{{b}}{{q}}</text></cmp-dyn>',
+            '<view wx:for="{{l}}" wx:key="k"><cmp-dyn><view slot:a slot="{{s}}">{{a}}{{item.p}}{{q}}</view><slot name="{{s}}"/></cmp-dyn></view>',
+            '<cmp-dyn><cmp-dyn slot:a title="{{a}}"><view slot:a slot="s1">{{a}}{{q}}</view></cmp-dyn></cmp-dyn>']
+    return [(t, D0, D1s) for t in tpls]
 
 
 def directed_scenarios():
@@ -150,6 +180,14 @@ def directed_scenarios():
     for body in ("{{item.p}}", "{{index}}:{{item.p}}", "{{item}}"):
         out.append(('<view wx:for="{{l}}" wx:key="k">%s</view>' % body, [({"l": dup}, {"l": t}) for t in dup_t] + [({"l": t}, {"l": dup}) for t in dup_t] +
                     [({"l": dobj}, {"l": t}) for t in dobj_t] + [({"l": t}, {"l": dobj}) for t in dobj_t]))
+    # a keyed / unkeyed list whose key sequence changes in the same update as an outer field read inside the items (the items that stay
+    # must still be re-evaluated for the outer field)
+    outer = [({"l": arr, "q": "b"}, {"l": t, "q": "c"}) for t in arr_t + [arr + [{"k": "w", "p": 4}], arr[:1] + [{"k": "w", "p": 4}] + arr[1:]]]
+    outer += [({"l": obj, "q": "b"}, {"l": t, "q": "c"}) for t in obj_t]
+    for key in (None, "k", "*this"):
+        ka = "" if key is None else ' wx:key="%s"' % key
+        for body in ("{{item.p}}/{{q}}", "<v title=\"{{q}}\">{{item.k}}</v>", "{{index}}{{q}}", "<block wx:if=\"{{q == 'c'}}\">{{item.p}}</block>"):
+            out.append(('<view wx:for="{{l}}"%s>%s</view>' % (ka, body), outer))
     # every attribute family: a value that becomes undefined / null / empty and comes back
     U = {"$": "undefined"}
     trans = [({"s": a}, {"s": b}) for a in ("x", U, None, "") for b in ("y", U, None, "") if json.dumps(a) != json.dumps(b)]
@@ -158,6 +196,66 @@ def directed_scenarios():
                 '<view wx:if="{{s}}" slot="{{s}}">{{s}}</view><view wx:else slot="{{s}}">e</view>'):
         out.append((tpl, trans))
     return out
+
+
+def rlm_stream(chk, rng, quick):
+    """the model of RangeListManager's key bookkeeping and update-tree transformation (GE/Model/Rlm.lean, theorems in GE/Thm/C06Rlm.lean) vs the
+    REAL class: for random keyed lists (duplicate keys, keys that look like renamed ones, array-index-like keys, missing keys) and per-position
+    trees: which old node every new item gets, and whether it is told `true`, nothing, or its subtree"""
+    pool = ["a", "b", "a--0", "a--1", "1", "2", "10", "", "x", "a--0--0", "01"]
+    reqs, dreqs = [], []
+    for i in range(1500 if quick else 40000):
+        no, nn = rng.below(6), rng.below(6)
+        ok = [rng.choice(pool[: 3 + rng.below(len(pool) - 2)]) for _ in range(no)]
+        if rng.chance(1, 2):
+            nk = list(ok)
+            for _ in range(rng.below(3)):
+                if nk:
+                    nk[rng.below(len(nk))] = rng.choice(pool)
+            if rng.chance(1, 4) and nk:
+                nk.pop(rng.below(len(nk)))
+            if rng.chance(1, 4):
+                nk.insert(rng.below(len(nk) + 1), rng.choice(pool))
+        else:
+            nk = [rng.choice(pool) for _ in range(nn)]
+        letters = "".join(rng.choice("nnnaks") for _ in range(max(len(ok), len(nk))))
+        tree = {}
+        for j, c in enumerate(letters):
+            if c == "a":
+                tree[str(j)] = True
+            elif c == "k":
+                tree[str(j)] = {"k": True}
+            elif c == "s":
+                tree[str(j)] = {"p": True}
+        item = lambda k, j: ({"p": j} if k == "" else {"k": k, "p": j})      # a missing key field reads as ''
+        reqs.append({"op": "rlm", "keyName": "k", "old": [item(k, j) for j, k in enumerate(ok)], "new": [item(k, 100 + j) for j, k in enumerate(nk)], "tree": tree})
+        enc = lambda l: "\x01".join(l) if l else "-"
+        dreqs.append(core.req("rlm", enc(ok), enc(nk), letters))
+    real = core.run_node(reqs)
+    model = core.run_driver(dreqs)
+    if not core.MODEL_OK:
+        return
+    nd = 0
+    for rq, dq, r, m in zip(reqs, dreqs, real, model):
+        if "error" in r:
+            chk.violation("correspondence", f"the real RangeListManager threw: {r['error']}", stream="rlm", request=rq)
+            continue
+        calls = {c["node"]: c for c in r["calls"]}
+        got = []
+        for nid in r["children"]:
+            if nid is None or nid >= r["oldCount"]:
+                got.append("new")
+            else:
+                c = calls.get(nid)
+                got.append("%d:%s" % (nid, c["mark"] if c else "?"))
+        want = core.unesc(m.split("\t")[0]) if m else ""
+        chk.case(("rlm", dq), nontrivial=len(set(rq["old"][j].get("k", "") for j in range(len(rq["old"])))) < len(rq["old"]))
+        if " ".join(got) != want:
+            nd += 1
+            if nd <= 4:
+                chk.violation("correspondence", f"RangeListManager: model gives [{want}], implementation [{' '.join(got)}]", stream="rlm", request=rq, model=want, real=" ".join(got))
+    chk.bump("corr:rlm:cases", len(reqs))
+    chk.bump("corr:rlm:diffs", nd)
 
 
 def write_path(D, path, v):
@@ -210,8 +308,11 @@ def run_histories(chk, srcs, plans):
             chk.violation("input", "compiler failed on generated template", template=srcs[i], answer=json.dumps(g)[:300])
             continue
         hist, steps = plans[i]
-        reqs.append({"op": "render", "gen_groups": g["gen_groups"], "path": "p", "steps": steps})
-        reqs.append({"op": "render", "gen_groups": g["gen_groups"], "path": "p", "steps": [{"create": hist[-1]}]})
+        # every other history runs with the slot values the runtime really passes (none outside dynamic-slot content) instead of probes
+        sv = i % 2 == 0
+        epoch = ([0] + [st["slotEpoch"] for st in steps if "slotEpoch" in st])[-1]
+        reqs.append({"op": "render", "gen_groups": g["gen_groups"], "path": "p", "steps": steps, "slotValues": sv})
+        reqs.append({"op": "render", "gen_groups": g["gen_groups"], "path": "p", "steps": [{"create": hist[-1], "epoch": epoch}], "slotValues": sv})
         meta.append((i, hist, steps))
     outs = core.run_node(reqs)
     nb = 0
@@ -225,7 +326,7 @@ def run_histories(chk, srcs, plans):
             # the updated instance threw although a fresh creation with the same data works
             nb += 1
             if nb <= 3:
-                chk.violation("input", f"update threw: {a.get('error')}", template=srcs[i], history=hist, steps=steps)
+                chk.violation("input", f"update threw: {a.get('error')}", template=srcs[i], history=hist, steps=steps, slotValues=i % 2 == 0)
             continue
         upd = up.project_state(a["snapshots"][-1]["tree"])
         first = up.project_state(a["snapshots"][0]["tree"])
@@ -235,7 +336,7 @@ def run_histories(chk, srcs, plans):
             nb += 1
             if nb <= 3:
                 chk.violation("input", "tree after incremental update differs from a fresh creation with the final data",
-                              template=srcs[i], history=hist, steps=steps, updated=upd, fresh=fresh)
+                              template=srcs[i], history=hist, steps=steps, updated=upd, fresh=fresh, slotValues=i % 2 == 0)
     chk.programs = len(meta)
     chk.bump("oracle:histories", len(meta))
     chk.bump("oracle:stale", nb)
@@ -245,8 +346,14 @@ def replay(chk, path):
     o = json.load(open(path))["first"]
     if "template" in o and "steps" in o:
         g = render.compile_templates([[["p", o["template"]]]])[0]
-        a, b = core.run_node([{"op": "render", "gen_groups": g["gen_groups"], "path": "p", "steps": o["steps"]},
-                              {"op": "render", "gen_groups": g["gen_groups"], "path": "p", "steps": [{"create": o["history"][-1]}]}])
+        epoch = ([0] + [st["slotEpoch"] for st in o["steps"] if "slotEpoch" in st])[-1]
+        sv = o.get("slotValues", True)
+        a, b = core.run_node([{"op": "render", "gen_groups": g["gen_groups"], "path": "p", "steps": o["steps"], "slotValues": sv},
+                              {"op": "render", "gen_groups": g["gen_groups"], "path": "p", "steps": [{"create": o["history"][-1], "epoch": epoch}],
+                               "slotValues": sv}])
+        if "error" in a:
+            chk.violation("input", "replayed: update threw " + str(a["error"]), template=o["template"], history=o["history"], steps=o["steps"])
+            return chk.finish()
         x, y = up.project_state(a["snapshots"][-1]["tree"]), up.project_state(b["snapshots"][0]["tree"])
         print("updated", json.dumps(x)[:1500]); print("fresh  ", json.dumps(y)[:1500])
         if json.dumps(x) != json.dumps(y):
